@@ -19,7 +19,8 @@ Entries == {"aperture_photometry", "do_photometry", "aperture_mask", "aperture_s
             "find_peaks", "daofinder", "iraffinder", "starfinder", "centroids", "centroid_sources", "profiles", "psf_photometry",
             "iterative_psf", "grouper", "psf_models", "make_model_image", "isophote", "calc_total_error", "utils", "morphology",
             "image_depth", "epsf", "epsf_weights", "aperture_mask_edge",
-            "aperture_photometry_subpixel", "sky_apertures", "annuli", "fit_gaussian", "psf_matching", "datasets", "harmonics", "interpolators", "segment_cutouts"}
+            "aperture_photometry_subpixel", "sky_apertures", "annuli", "fit_gaussian", "psf_matching", "datasets", "harmonics", "interpolators", "segment_cutouts",
+            "plotting"}
 Reps == {"ndarray", "view", "masked", "quantity", "f4"}      \* f4: single-precision arrays (dtype-dispatched code paths)
 Conds == {"clean", "nonfinite", "negative", "masked", "emptymask", "invalid"}
 \* entry points that take no image (their own argument kinds are varied by the adapter instead)
